@@ -1470,6 +1470,33 @@ int ChanBatch(const ChanOptions &opt) {
   for (auto &s : batch.rejected()) rj.push(s);
   summary["substrates_rejected_by_encoder"] = rj;
   summary["num_guards"] = static_cast<unsigned long long>(StepsNumGuards());
+  // Reach: merge the workers' edge bitmaps; store the PC of every guard so that
+  // the driver can map covered edges to source lines.
+  {
+    const uint32_t ng = StepsNumGuards();
+    std::vector<uint8_t> merged(ng + 1, 0);
+    for (int w = 0; w < 64; ++w) {
+      char name[512];
+      snprintf(name, sizeof(name), "%s/edges.%d.bin", opt.log_dir.c_str(), w);
+      std::string b;
+      if (!ReadFile(name, &b)) continue;
+      // A restarted worker appends another bitmap: fold all of them.
+      for (size_t off = 0; off + ng + 1 <= b.size(); off += ng + 1)
+        for (uint32_t i = 0; i <= ng; ++i) merged[i] |= static_cast<uint8_t>(b[off + i]);
+    }
+    uint64_t covered = 0;
+    for (uint32_t i = 1; i <= ng; ++i) covered += merged[i] ? 1 : 0;
+    summary["edges_reached"] = static_cast<unsigned long long>(covered);
+    uint32_t npcs = 0;
+    const uintptr_t *pcs = StepsPcTable(&npcs);
+    std::string out;
+    for (uint32_t i = 1; i <= ng && i <= npcs; ++i) {
+      if (!merged[i]) continue;
+      uint64_t pc = pcs[2 * (i - 1)];
+      out.append(reinterpret_cast<const char *>(&pc), 8);
+    }
+    WriteFile(opt.log_dir + "/covered_pcs.bin", out);
+  }
   WriteFile(opt.out_path, summary.Dump());
   return 0;
 }
